@@ -7,7 +7,7 @@ from . import C01, C06
 from pyPRISM.core.Space import Space
 from pyPRISM.core.MatrixArray import MatrixArray
 
-RULE = ("PRISM objects of rank 1-4, hand-populated (random symmetric totalCorr / directCorr / omega, random densities, unequal diameters, kT != 1, arrays initially in either space) or solved; "
+RULE = ("PRISM objects of rank 1-4, hand-populated (random symmetric totalCorr / directCorr / omega, random densities, unequal diameters, kT != 1, lengths also in units of 1e-3 .. 1e-10 (diameters ~1e-3 .. 1e-10, densities scaled accordingly), arrays initially in either space) or solved; "
         "every calculate function with every flag value is called on a fresh copy; the return value and the object's arrays/flags are compared with the Lean model, and the return value with an "
         "INDEPENDENT NumPy transcription of the definitions (theorem statements, not the code): h+1, -kT ln g, rho_site*omega + rho_pair*h (/rho_site), -h(k->0)/2, k->0 of det(I - Omega C) of each "
         "pair's 2x2 block (every pair of 3- and 4-component systems), chi weights 1/R : R : -2 with (rho/2)(Caa+Cbb-2Cab) at equal volumes, back-transform of -kT C S C / -kT ln(1+CSC), "
@@ -201,6 +201,10 @@ def gen_hand_sys(rng, n, L):
     if n >= 2 and rng.random() < 0.35:
         for t in range(rng.randint(2, n)): sd['dens'][t] = sd['dens'][0]
         sd['dens_group'] = True                                  # several densities assigned in one statement (density[['A','B']] = rho)
+    if rng.random() < 0.25:
+        # the same system in other units of length (micrometres, metres): lengths x u, number densities / u^3; every definition is unit-free
+        u = rng.choice([1e-3, 2.5e-3, 1e-9, 1e-10])
+        sd['dom'] = [L, dr * u]; sd['diam'] = [d * u for d in sd['diam']]; sd['dens'] = [float('%.5g' % (v / u ** 3)) for v in sd['dens']]; sd['lunit'] = u
     if rng.random() < 0.3: sd['kT_assign'] = 1.0
     if n >= 2 and not sd.get('dens_group') and rng.random() < 0.3: sd['dens_order'] = rng.sample(range(n), n)          # densities assigned in any order
     if n >= 2 and rng.random() < 0.5: sd['diam_order'] = rng.sample(range(n), n) + ([0] if rng.random() < 0.5 else [])
@@ -216,7 +220,7 @@ def generate(ctx):
         if len(obj) > 2 and rng.random() < 0.7: spaces = 'R' + spaces[1:]
         for call in CALLS:
             case = {'sys': sd, 'obj': obj, 'call': call, 'spaces': spaces, 'again': rng.choice([None, 'pair', 'scale'])}
-            ctx.case('call', case, n >= 2, tags=['again:%s' % case['again'], 'rank:%d' % n, 'call:' + call, 'spaces:' + spaces, 'equal-diam' if len(set(sd['diam'])) == 1 else 'unequal-diam'])
+            ctx.case('call', case, n >= 2, tags=['again:%s' % case['again'], 'rank:%d' % n, 'call:' + call, 'spaces:' + spaces, 'equal-diam' if len(set(sd['diam'])) == 1 else 'unequal-diam', 'length-unit:%g' % sd.get('lunit', 1)])
             suite_call(ctx, case)
     for q in range(ctx.n(6, 40)):
         sd = C01.gen_solvable(rng, maxn=3, maxL=ctx.n(32, 64))
